@@ -1,10 +1,12 @@
 #!/bin/bash
 # tools/seeded_run.sh <seeded-id> [check ids...]: apply seeded/<id>/patch.diff to a scratch worktree of /repo, run the demonstration
+# (VERIF_DIR=<worktree of /verif> runs that copy of the checks instead of /verif)
 # and the given checks (default: the property in meta.json) against that worktree, remove the worktree.
 set -u
 id=$1; shift
-dir=/verif/seeded/$id
-wt=/tmp/seeded_wt_$id
+V=${VERIF_DIR:-/verif}
+dir=$V/seeded/$id
+wt=/tmp/seeded_wt_${id}_$(basename $V)
 git -C /repo worktree remove --force $wt 2>/dev/null
 git -C /repo worktree add --detach $wt HEAD -q || exit 2
 git -C $wt apply $dir/patch.diff || { echo "patch does not apply"; git -C /repo worktree remove --force $wt; exit 2; }
@@ -16,6 +18,6 @@ if [ -n "$demo" ]; then
   (cd /repo && PYTHONPATH=/repo timeout 600 /venv/bin/python $demo >/dev/null 2>&1; echo "demo on /repo (unchanged): exit $?")
 fi
 for p in "${props[@]}"; do
-  (cd /verif && SPLINK_REPO=$wt timeout 3000 ./check $p --tier quick 2>&1 | grep -E "VIOLATION|KNOWN-FINDING|^\[$p\]|Traceback|Error" | head -8)
+  (cd $V && SPLINK_REPO=$wt timeout 3000 ./check $p --tier quick 2>&1 | grep -E "VIOLATION|KNOWN-FINDING|^\[$p\]|Traceback|Error" | head -8)
 done
 git -C /repo worktree remove --force $wt
